@@ -77,6 +77,14 @@ claimed = {
    text="PARTIAL: rendering excluded. Symbolic execution of the real addIPFIXMessage, flowRecordHandler and resetRecordHandler of cmd/collector (package main; the harness file is injected with go's overlay mechanism, nothing is added to the repository): one-step window update from a store of every length (quick: boundary lengths; thorough: every L in 0..4096), record queries for boundary counts in both formats and for a SYMBOLIC count on small stores (strconv.Atoi stubbed), refusal of invalid queries and methods, reset.",
    note="Not covered: 'every field appears by name and value' beyond one concrete record shape (fmt is rendered by the host for concrete operands only); json.Marshal/http plumbing are recorders; run(), the HTTP server and signal handling are not executed. Counterexamples are replayed in the interpreter.",
    tech="symbolic execution of Go SSA (package main via overlay) with recorder stubs for fmt/json/http"),
+ "C13": dict(cat="other", sec="DESIGN.md section 4, C13",
+   text="PARTIAL: sufficient condition, not schedules. Every public operation of AggregationProcess is executed symbolically from bounded arbitrary states over all feasible paths (error paths, failing callbacks) under an access monitor that logs every load, store and map operation on state reachable from the process together with the process mutexes held; the lockset rule across operations (conflicting accesses, at least one write, not both atomic, no common lock), a mutex held at return, re-acquired while held or unlocked while free are violations. With mutual exclusion trusted this yields atomic operations (linearizable at the lock acquisition) and reduces lost-update / double-export questions to the sequential properties C05/C06.",
+   note="Interleavings are NOT enumerated; the Go memory model, sync.RWMutex and the race detector are trusted. States of 0..1 (quick) / 0..2 (thorough) flows.",
+   tech="symbolic execution of Go SSA with a lockset access monitor over all feasible paths"),
+ "C14": dict(cat="other", sec="DESIGN.md section 4, C14",
+   text="PARTIAL. (1) Lockset monitor over the bodies each goroutine of an exporting process runs (application SendSet / NewTemplateID, UDP refresher sendRefreshedTemplates, TCP checker checkConnToCollector + closeConnToCollector, CloseConnToCollector from anyone) with per-goroutine roles: conflicting unsynchronised accesses to a field of the process from roles that can run concurrently are violations. (2) Sequential contracts of those bodies with symbolic contents on a recording net.Conn: a refresh retransmits every template sent so far exactly once, one Write each, byte-identical to the reference encoding; a peer close is noticed by the check, the connection closed once, later sends fail and write nothing; closing is idempotent; nothing is written after close.",
+   note="Not decidable here and not claimed: the ticker loops inside InitExportingProcess, 'within the check interval', real timing and scheduling. Interleavings are not enumerated.",
+   tech="symbolic execution of Go SSA with a lockset access monitor + sequential contract checks"),
 }
 
 NA = {
